@@ -107,8 +107,11 @@ def gen_plan(seed, tier):
   r4 = substream(seed, "c13-extra")
   with_pre = r4.random() < 0.2          # the estimator also has a preprocessor; formed pairs are passed all the same
   signed_zeros = params.get("prior") == "covariance" and desc["kind"] != "grid" and r4.random() < 0.4
+  r5 = substream(seed, "c13-hist-sparsity")
+  # the earlier life of the object may have used another penalty (set_params in between): half of the histories
+  hist_sparsity = r5.choice([1e-3, 0.01, 0.05, 0.2, 0.5, 1.0]) if r5.random() < 0.5 else None
   plan = dict(run_seed=seed, dataset=desc, params=params, config=config, history_scale=hist_scale,
-              with_pre=with_pre, signed_zeros=signed_zeros,
+              history_sparsity=hist_sparsity, with_pre=with_pre, signed_zeros=signed_zeros,
               frac=r.choice([0.1, 0.3, 0.5]) if config != "natural" else r.choice([3.0, 10.0, 100.0]),
               ambient=r.randrange(10**6), history=r.random() < 0.25)
   if config == "stub":
@@ -186,9 +189,13 @@ def run_plan(plan):
           D2 = make_data(dict(plan["dataset"], seed=plan["dataset"]["seed"] + 1))
           # the earlier life of the object: other pairs, possibly in other units
           hs = float(plan.get("history_scale", 1.0))
+          if plan.get("history_sparsity") is not None:
+            est.set_params(sparsity_param=plan["history_sparsity"])
+            cov["history_with_other_sparsity"] += 1
           ml.SDML.fit(est, D2.S[D2.pairs_idx] * hs, D2.pairs_y)
       except Exception:
         pass
+      est.set_params(sparsity_param=p["sparsity_param"])
       cov["with_history"] += 1
     world.perturb_ambient(plan["ambient"], 3)
     pairs_dg = digest(pairs)
